@@ -1,4 +1,5 @@
 import FlowCalModel.Meta
+import FlowCalModel.Generated
 /-!
 # C17 — Acquisition metadata reflects the file's keywords and never blocks loading
 -/
@@ -122,5 +123,9 @@ example : parseDate (some (s2l "02-OCT-2015")) = some ⟨2015, 10, 2⟩ := by de
 example : parseDate (some (s2l "15-oct-02")) = some ⟨2002, 10, 15⟩ := by decide
 example : parseDate (some (s2l "2015-Oct-31")) = some ⟨2015, 10, 31⟩ := by decide
 example : parseDate (some (s2l "31-FEB-2015")) = none := by decide
+
+/-- the keyword names and vendor marks the model reads are the ones `FCSData.__new__` reads in the source now (regenerated on every run) -/
+theorem keywords_match_source :
+    Generated.sampleKeywords = FlowCal.Meta.keywordsRead ∧ Generated.vendorMarks = FlowCal.Meta.vendorMarksRead := ⟨rfl, rfl⟩
 
 end FlowCal.C17
